@@ -43,7 +43,7 @@ class Recorder:
     def ev(self, kind, ref=None, data=None):
         self.seq += 1
         k = simk.K
-        self.events.append([self.seq, round(k.clock, 4) if k is not None else 0.0, kind, ref, data])
+        self.events.append([self.seq, round(k.clock, 6) if k is not None else 0.0, kind, ref, data])
         return self.seq
 
     def count(self, name, n=1):
@@ -294,7 +294,7 @@ def sim_task_generator(job, outputFile=None, errorFile=None):
         if lf == 'oserror':
             raise OSError('simulated launch failure')
         if lf == 'joblaunch':
-            raise experiment.runtime.errors.JobLaunchError('simulated launch failure')
+            raise experiment.runtime.errors.JobLaunchError('simulated launch failure', OSError('simulated'))
         raise ValueError('simulated launch failure')
     if CTX.on_launch is not None:
         CTX.on_launch(job, n, spec)
@@ -448,6 +448,7 @@ def install_probes():
 
     def cs_restart(self, reason=None, code=None):
         ref = self.specification.reference
+        REC.ev('restart-begin', ref, {'reason': reason})
         try:
             r = o_restart(self, reason=reason, code=code)
         except BaseException as e:
@@ -537,10 +538,31 @@ def install_probes():
 
     Ctl.postMortemCheck = c_pm
 
+    o_cm = experiment.runtime.monitor.CreateMonitor
+
+    def create_monitor(interval, action, cancelEvent, lastAction=True, name=None, default_polling_time=5.0):
+        ref = name.split(' ')[0] if name and name.endswith('(EngineCore)') else None
+
+        def rec_action(last, _a=action, _ref=ref):
+            if _ref is not None:
+                REC.ev('kstart', _ref, {'last': bool(last)})
+            try:
+                return _a(last)
+            finally:
+                if _ref is not None:
+                    REC.ev('kend', _ref, None)
+
+        rec_action.__name__ = getattr(action, '__name__', 'action')
+        return o_cm(interval, rec_action, cancelEvent, lastAction=lastAction, name=name,
+                    default_polling_time=default_polling_time)
+
+    experiment.runtime.monitor.CreateMonitor = create_monitor
+
     o_sched = Ctl._schedule
 
     def c_sched(self, migrated_components):
         REC.count('sched.passes')
+        REC.ev('sched-start', None, None)
         return o_sched(self, migrated_components)
 
     Ctl._schedule = c_sched
@@ -586,9 +608,10 @@ def states_of(controller):
     return out
 
 
-def run_stages(exp, controller, rec, settle=60.0):
-    """The stage loop of scripts/elaunch.py::Run, restated. Returns list of per-stage outcomes."""
-    outcomes = []
+def run_stages(exp, controller, rec, outcomes=None):
+    """The stage loop of scripts/elaunch.py::Run, restated. Returns (and fills in place) the per-stage outcomes."""
+    if outcomes is None:
+        outcomes = []
     for stage in exp._stages:
         out = {'stage': stage.index, 'continueOnError': bool(stage.continueOnError)}
         rec.ev('stage-start', 'stage%d' % stage.index, None)
